@@ -12,9 +12,9 @@ PLUMBING = ("core::future::", "core::pin::Pin", "core::fmt::", "log::", "core::m
 
 
 class Fn:
-    def __init__(self, crate, short):
+    def __init__(self, crate, short, body_id=None):
         self.short = short
-        bid = FEIG + short + "::{closure#0}"
+        bid = body_id or (FEIG + short + "::{closure#0}")
         self.body = crate.bodies.get(bid)
         self.outer = crate.bodies.get(FEIG + short)
         if self.body is None:
